@@ -289,14 +289,33 @@ example :
         .list [3, 70000], .list [3], .iter [3, 70000] false]) := by decide
 
 /-- What the hand-written model takes from the source text, re-extracted from /repo by go/ast
-on every run (`Golib/Gen/FactsC03.lean`): the conversion threshold, the sizes of the scratch
-buffer and of the word array, the cardinality written by hand after a conversion
-(= threshold + 1), and that `Next` drops the inner iterator when it moves to the next bucket
-(the F2 repair — `itNext true` is the model of exactly that code). -/
+on every run (`Golib/Gen/FactsC03.lean`; a shape that is not found is emitted as `false`/`0`, so
+this theorem then fails to `decide`):
+* the conversion threshold, the sizes of the scratch buffer and of the word array, the cardinality
+  written by hand after a conversion (= threshold + 1), `setZero` clearing all the words;
+* `Next` drops the inner iterator when it moves to the next bucket (the F2 repair — `itNext true`
+  is the model of exactly that code);
+* the function returned by `All` (setz/iter.go) is the body of `Range` modulo the callback's name
+  (`RB.all` is defined as `RB.range`);
+* `Remove` calls `containers.Remove(high)` exactly under `c.Len() == 0` inside `if ok`, after `len--`;
+* `arrayContainer.Add` tests the duplicate before `len(values) < threshold`; `search` is the loop
+  of `searchLoop`;
+* the word loops: `for j := 0; j < 64`, value `high<<16 | (i<<6+j)`, `Type() == 1` = array container;
+  `num>>16` / `uint16(num)`, `num>>6` / `num&63`; the cached length moves with `Bits.Add/Remove`;
+* the iterators: `arrayContainerIter` starts at `-1` (`Container.iter`), `BitmapIter.Next` resets
+  `j` to 0 when it moves to the next word, `Value` = `key<<16 | inner value`. -/
 theorem c03_facts :
     Golib.Gen.C03.extractorOK = true ∧ Golib.Gen.C03.threshold = threshold ∧
     Golib.Gen.C03.bufLen = threshold ∧ Golib.Gen.C03.words = 1024 ∧ Golib.Gen.C03.words * 64 = 65536 ∧
-    Golib.Gen.C03.convertedLen = threshold + 1 ∧ Golib.Gen.C03.iterReset = true := by
+    Golib.Gen.C03.convertedLen = threshold + 1 ∧ Golib.Gen.C03.iterReset = true ∧
+    Golib.Gen.C03.setZeroWords = Golib.Gen.C03.words ∧
+    Golib.Gen.C03.allBodyEqRange = true ∧ Golib.Gen.C03.removeGuard = true ∧
+    Golib.Gen.C03.addDupBeforeThreshold = true ∧ Golib.Gen.C03.searchShape = true ∧
+    Golib.Gen.C03.rangeInnerBound = 64 ∧ Golib.Gen.C03.rangeShape = true ∧
+    Golib.Gen.C03.splitShape = true ∧ Golib.Gen.C03.bitSplitShape = true ∧
+    Golib.Gen.C03.cachedLenShape = true ∧
+    Golib.Gen.C03.arrIterStart = -1 ∧ Golib.Gen.C03.arrIterShape = true ∧
+    Golib.Gen.C03.bitmapIterShape = true ∧ Golib.Gen.C03.iterValueShape = true := by
   decide
 
 end Golib.C03
